@@ -63,7 +63,8 @@ PKGS = [["p"], ["p", "q"], ["pkg"], ["other", "pkg"], ["g"], ["kg"]]
 NAMES = ["Foo", "XFoo", "FooX", "Bar", "Baz", "Qux", "Foo2", "IFoo", "IBinder", "ParcelFileDescriptor"]
 BUILTINS = ["IBinder", "FileDescriptor", "ParcelFileDescriptor", "ParcelableHolder"]
 MNAMES = ["f", "g", "h", "get", "set", "f2"]
-CODES = ["", "", "", "1", "2", "3", "01", "10", "4294967295", "0", "007"]
+CODES = ["", "", "", "1", "2", "3", "01", "10", "4294967295", "0", "007", "4294967296", "18446744073709551616",
+         "99999999999999999999999999999999"]
 
 
 class ProjGen:
@@ -122,7 +123,7 @@ class ProjGen:
         cands += [["zz", "Unk"], ["pkg", "Nope"], ["android", "os", "IBinder"], ["android", "os", "ParcelFileDescriptor"],
                   ["android", "os", "ParcelableHolder"]]
         imports = []
-        for _ in range(r.choice([0, 1, 1, 2, 3, 4])):
+        for _ in range(r.randint(17, 30) if r.random() < 0.03 else r.choice([0, 1, 1, 2, 3, 4])):
             imports.append(r.choice(cands))
             if r.random() < 0.15:
                 imports.append(imports[-1])
@@ -149,7 +150,7 @@ class ProjGen:
             if ioneway:
                 toks.append(T("oneway"))
             toks += [T("interface"), T(name, "IDENT"), T("{")]
-            for _ in range(r.choice([0, 1, 2, 3, 3, 4, 6, 9])):
+            for _ in range(r.randint(17, 35) if r.random() < 0.03 else r.choice([0, 1, 2, 3, 3, 4, 6, 9])):
                 if r.random() < 0.2:
                     toks += [T("const")] + self.type_(min(depth, 1), refs) + [T("K%d" % r.randint(1, 3), "IDENT"), T("="), T(str(r.randint(0, 9))), T(";")]
                     continue
@@ -157,7 +158,7 @@ class ProjGen:
                     toks.append(T("oneway"))
                 ret = [T("void")] if r.random() < 0.5 else self.type_(depth, refs, allow_void=True)
                 toks += ret + [T(r.choice(MNAMES), "IDENT"), T("(")]
-                nargs = r.choice([0, 1, 1, 2, 3])
+                nargs = r.randint(17, 20) if r.random() < 0.01 else r.choice([0, 1, 1, 2, 3])
                 for a in range(nargs):
                     if a:
                         toks.append(T(","))
@@ -423,7 +424,8 @@ HAZARD = ["\u00e9", "\u4e2d", "\U0001F600", "\u0301", "\u00a0", "\u3000", "\u202
           "\u200b", "\u0663", "\ufeff", "\x0b", "\x00"]
 FRAGS = ["package", "import", "interface", "parcelable", "enum", "oneway", "const", "void", "String", "List", "Map",
          "in", "out", "inout", "int", "byte", "true", "false", "CharSequence", "a", "Foo", "p.q", "x1", "_", "@A", "@B(a=1)",
-         ";", ",", "{", "}", "(", ")", "[", "]", "<", ">", "=", ".", "-", "1", "99999999999", "1.5f", "-.5", "\"s\"", "\"",
+         ";", ",", "{", "}", "(", ")", "[", "]", "<", ">", "=", ".", "-", "1", "99999999999", "18446744073709551616",
+         "= 340282366920938463463374607431768211456;", "\u0663", "x\u0663", "1.5f", "-.5", "\"s\"", "\"",
          "/*", "*/", "/**", "//", "/** d */", "/* c */", "// c\n", "class", "for", "new", "= 9999999999;", "= 9999999999;"]
 
 
